@@ -472,6 +472,86 @@ static void xcorr_auto_case(Ctx& ctx, int n) {
     if (n >= 2) ctx.nontrivial();
 }
 
+// ------------------------------------------------------------------------------------------------ direct form, large dynamic range
+// "FirFilter ... to rounding accuracy for every coefficient vector and input ... large-dynamic-range content": the DIRECT filter
+// (process and conv) is held to the per-sample bound |err_i| <= (nh+8)*eps*sum_k |c[k]||x[i-k]| that every double-precision dot
+// product meets in any summation order - a loud sample may only disturb the outputs it is a term of.  (FftFilter is allowed its
+// block-level bound.)  One call of 16..20 nh samples with nh >= 256.
+static void burst_case(Ctx& ctx, bool cplx, int nh, int len, const std::string& letter, int pos) {
+    const Sig c = coef_letter("dense", 0, nh, cplx);
+    Sig x;
+    x.resize((size_t)len);
+    for (int i = 0; i < len; ++i) {
+        double re = lcg_val(791, (uint64_t)i), im = lcg_val(792, (uint64_t)i);
+        if (letter == "burst100") {
+            const double sc = (i >= pos && i < pos + 3) ? 1e100 : 1e-100;
+            re *= sc, im *= sc;
+        } else if (i == pos) {
+            const double v = letter == "spike1e8" ? 1e8 : 1e12;
+            re = v, im = -0.5 * v;
+        }
+        put(x, (size_t)i, re, im, cplx);
+    }
+    Sig ref;
+    std::vector<double> S;
+    fir_ref(c, x, cplx, ref, S);
+    auto tol = [&](long i) { return (nh + 8.0) * EPS * S[(size_t)i]; };
+    const char* sp = cplx ? "FirFilterC::process" : "FirFilterR::process";
+    const char* sc = cplx ? "FirFilterC::conv" : "FirFilterR::conv";
+    try {
+        // process(): len outputs against ref[0..len)
+        std::vector<double> re, im;
+        if (!cplx) {
+            arr_real y = dsplib::FirFilterR(to_real(c)).process(to_real(x));
+            for (int i = 0; i < y.size(); ++i) re.push_back(y[i]), im.push_back(0.0);
+        } else {
+            arr_cmplx y = dsplib::FirFilterC(to_cmplx(c)).process(to_cmplx(x));
+            for (int i = 0; i < y.size(); ++i) re.push_back(y[i].re), im.push_back(y[i].im);
+        }
+        if ((long)re.size() != len) {
+            ctx.fail(sp, fmt("output length %zu", re.size()), fmt("%d", len), P().kv("what", "size"));
+        } else {
+            Cmp q = compare(len, [&](long i) { return re[(size_t)i]; }, [&](long i) { return im[(size_t)i]; }, ref, tol);
+            ctx.worst("burst: direct process err / ((nh+8) eps sum|c||x|)", q.worst_ratio < 1e299 ? q.worst_ratio : 0);
+            if (q.bad >= 0)
+                ctx.fail(sp,
+                         q.nonfinite ? fmt("non-finite y[%ld]", q.bad)
+                                     : fmt("%s at %d: |y[%ld]-sum| = %.3g = %.3g eps*sum|c||x| of that sample", letter.c_str(), pos, q.bad, q.err_at,
+                                           q.err_at / (EPS * S[(size_t)q.bad])),
+                         fmt("<= %.3g = (nh+8) eps sum_k|c[k]||x[i-k]| (per-sample rounding bound of the direct form)", q.tol_at), P().kv("i", q.bad).kv("what", "value"));
+        }
+        // conv(): nx-nh+1 outputs against ref[nh-1..)
+        re.clear();
+        im.clear();
+        if (!cplx) {
+            arr_real y = dsplib::FirFilterR::conv(to_real(x), to_real(c));
+            for (int i = 0; i < y.size(); ++i) re.push_back(y[i]), im.push_back(0.0);
+        } else {
+            arr_cmplx y = dsplib::FirFilterC::conv(to_cmplx(x), to_cmplx(c));
+            for (int i = 0; i < y.size(); ++i) re.push_back(y[i].re), im.push_back(y[i].im);
+        }
+        const long n = (long)len - nh + 1;
+        if ((long)re.size() != n) {
+            ctx.fail(sc, fmt("output length %zu", re.size()), fmt("%ld", n), P().kv("what", "size"));
+        } else {
+            Sig r;
+            r.resize((size_t)n);
+            for (long i = 0; i < n; ++i) r.re[(size_t)i] = ref.re[(size_t)(i + nh - 1)], r.im[(size_t)i] = ref.im[(size_t)(i + nh - 1)];
+            Cmp q = compare(n, [&](long i) { return re[(size_t)i]; }, [&](long i) { return im[(size_t)i]; }, r, [&](long i) { return tol(i + nh - 1); });
+            ctx.worst("burst: direct conv err / ((nh+8) eps sum|c||x|)", q.worst_ratio < 1e299 ? q.worst_ratio : 0);
+            if (q.bad >= 0)
+                ctx.fail(sc,
+                         q.nonfinite ? fmt("non-finite r[%ld]", q.bad)
+                                     : fmt("%s at %d: |r[%ld]-sum| = %.3g = %.3g eps*sum|c||x| of that sample", letter.c_str(), pos, q.bad, q.err_at,
+                                           q.err_at / (EPS * S[(size_t)(q.bad + nh - 1)])),
+                         fmt("<= %.3g = (nh+8) eps sum_k|c[k]||x[i-k]| (per-sample rounding bound of the direct form)", q.tol_at), P().kv("i", q.bad).kv("what", "value"));
+        }
+    } catch (const std::exception& e) {
+        ctx.fail(sp, fmt("exception: %s", e.what()), "no exception", P().kv("what", "throw"));
+    }
+    ctx.nontrivial();
+}
+
 // ------------------------------------------------------------------------------------------------ FirFilter<T>::conv (static)
 // conv(x, h) returns the nx-nh+1 "valid" samples r[i] = sum_j conj(h[j]) x[i+nh-1-j], i.e. the filter output without history.
 static void conv_case(Ctx& ctx, bool cplx, int nx, int nh) {
@@ -1238,6 +1318,16 @@ int main(int argc, char** argv) {
             conv_case(ctx, cplx != 0, b[0], b[1]);
         }
     }
+
+    // ---- direct form with large dynamic range inside one long call (per-sample bound)
+    for (int cplx = 0; cplx < 2; ++cplx)
+        for (int nh : {256, 257, 512})
+            for (int len : {16 * nh, 18 * nh + 5, 20 * nh})
+                for (const char* lt : {"spike1e8", "spike1e12", "burst100"})
+                    for (int pos : {nh / 2, 5 * nh + 3, len - 2 * nh}) {
+                        if (!ctx.take("fir.burst", P().kv("cplx", cplx).kv("nh", nh).kv("len", len).kv("in", lt).kv("pos", pos))) continue;
+                        burst_case(ctx, cplx != 0, nh, len, lt, pos);
+                    }
 
     // ---- FirFilter fed in several calls with changing frame lengths
     {
